@@ -380,6 +380,7 @@ func checkC10(c *Ctx) {
 		"G-C10-candidates: findVerifiedParents tries the certificates indexed under the child's issuer name whenever the subject-key-id index gives none (completeness of chain building at the candidate-selection step; path enumeration with the ranged value resolved through the phis of each path)",
 		"G-C10-sigfrom: CheckSignatureFrom rejects v3 parents without valid basic constraints, non-CA parents (Entrust exception only), parents without certSign usage and unknown algorithms, and returns the signature check over RawTBSCertificate",
 		"G-C10-host: VerifyHostname accepts an IP literal only against IP SANs, a name only through matchHostnames on lower-cased SAN/CN (CN only without SANs); matchHostnames requires equal label counts and allows '*' only as the whole left-most label",
+		"G-C10-usagewalk: checkChainForKeyUsage reaches an accepting return only through the regular end of its loop over the chain (no early exit from the loop leads to a return that can be true)",
 		"G-C10-nameconstraint: matchNameConstraint (or a function it calls) involves the label separator '.' in its decision — a bare suffix match is reported; the case analysis around the boundary is not decided",
 		"FX-C10-pools: nothing reachable from Verify writes a CertPool")
 	c.NotDec = append(c.NotDec, "equivalence with a reference path validator over PKI topologies (behavioural)", "completeness of chain building: the per-intermediate cache can hide a valid alternative path (recorded as a known finding if reported)")
@@ -397,6 +398,7 @@ func checkC10(c *Ctx) {
 	c10SearchBoth(c)
 	c10CriticalFlag(c)
 	c10NameConstraint(c)
+	c10UsageWalk(c)
 	// FX inputs: nothing reachable from Verify writes memory reachable from its arguments (certificates,
 	// options incl. the requested key usages, pools, chains under construction), with named exceptions
 	if v := c.Fn("x509", "(*Certificate).Verify"); v != nil {
